@@ -13,7 +13,12 @@
 //                         base-cell name), 2-element robustpath (segment + cubic, linear interpolations),
 //                         label, reference by cell pointer, reference by name - each carrying one GDSII
 //                         attribute and one multi-value property; result array empty or already holding
-//                         the element itself (as Cell::get_* does).  Exactly one copy per non-first
+//                         the element itself (as Cell::get_* does).  Every element kind is used fresh and after
+//                         a transform history (polygon: rotate, mirror; flexpath: mirror, scale(2.5) with
+//                         scale_width=false, transform(2,true,0.3,(1,1)); robustpath: the same plus scale(0.5)
+//                         with scale_width=true; label / references: transform with reflection), so that fields
+//                         which only leave their initial value under transforms (offset_scale, width_scale,
+//                         trafo, negated offsets) are part of what a copy has to reproduce.  Exactly one copy per non-first
 //                         vector, each equal to the original translated by that vector in every field of
 //                         a deep canonical dump, no heap block shared, copies unaffected by scribbling over
 //                         the original afterwards, original left with RepetitionType::None and otherwise
@@ -353,13 +358,17 @@ static Cell CHILD;  // target of by-pointer references (shared by design)
 struct PolyOps {
     typedef Polygon T;
     static const char* name() { return "polygon"; }
-    static T* build() {
+    static T* build(int variant = 0) {
         T* e = (T*)allocate_clear(sizeof(T));
         e->tag = make_tag(2, 3);
         for (Vec2 v : {Vec2{0, 0}, Vec2{4, 0}, Vec2{4, 2}, Vec2{1, 3.5}}) e->point_array.append(v);
         e->properties = make_props();
+        if (variant == 1) e->rotate(0.3, Vec2{1, 1});
+        if (variant == 2) e->mirror(Vec2{0, 1}, Vec2{2, 2});
         return e;
     }
+    static int nvariants() { return 3; }
+    static const char* variant_name(int v) { static const char* n[] = {"fresh", "rotate(0.3,(1,1))", "mirror((0,1),(2,2))"}; return n[v]; }
     static Repetition& rep(T& e) { return e.repetition; }
     static std::string dumps(const T& e) { return dump::polygon(e); }
     static void shift(T& e, Vec2 v) { for (uint64_t i = 0; i < e.point_array.count; i++) { e.point_array[i].x += v.x; e.point_array[i].y += v.y; } }
@@ -371,7 +380,7 @@ struct PolyOps {
 struct FlexOps {
     typedef FlexPath T;
     static const char* name() { return "flexpath"; }
-    static T* build() {
+    static T* build(int variant = 0) {
         T* e = (T*)allocate_clear(sizeof(T));
         const double w[2] = {0.5, 0.25}, o[2] = {-0.5, 0.75};
         const Tag tg[2] = {make_tag(1, 0), make_tag(2, 7)};
@@ -387,8 +396,13 @@ struct FlexOps {
         e->raith_data.pitch_scale = 1.5;
         e->raith_data.periods = 3;
         e->properties = make_props();
+        if (variant == 1) e->mirror(Vec2{0, 1}, Vec2{2, 2});
+        if (variant == 2) { e->scale_width = false; e->scale(2.5, Vec2{1, 0}); }
+        if (variant == 3) e->transform(2, true, 0.3, Vec2{1, 1});
         return e;
     }
+    static int nvariants() { return 4; }
+    static const char* variant_name(int v) { static const char* n[] = {"fresh", "mirror((0,1),(2,2))", "scale_width=false; scale(2.5,(1,0))", "transform(2,true,0.3,(1,1))"}; return n[v]; }
     static Repetition& rep(T& e) { return e.repetition; }
     static std::string dumps(const T& e) {
         return jobj({{"path", dump::flexpath(e)}, {"last_ctrl_unchecked", jstr("-")},
@@ -425,7 +439,7 @@ struct FlexOps {
 struct RobustOps {
     typedef RobustPath T;
     static const char* name() { return "robustpath"; }
-    static T* build() {
+    static T* build(int variant = 0) {
         T* e = (T*)allocate_clear(sizeof(T));
         const double w[2] = {0.5, 0.25}, o[2] = {-0.5, 0.75};
         const Tag tg[2] = {make_tag(1, 0), make_tag(2, 7)};
@@ -443,8 +457,14 @@ struct RobustOps {
         }
         e->cubic(Vec2{6, 0}, Vec2{8, 2}, Vec2{8, 4}, wi, oi, false);
         e->properties = make_props();
+        if (variant == 1) e->mirror(Vec2{0, 1}, Vec2{2, 2});
+        if (variant == 2) { e->scale_width = false; e->scale(2.5, Vec2{1, 0}); }
+        if (variant == 3) e->scale(0.5, Vec2{1, 0});
+        if (variant == 4) e->transform(2, true, 0.3, Vec2{1, 1});
         return e;
     }
+    static int nvariants() { return 5; }
+    static const char* variant_name(int v) { static const char* n[] = {"fresh", "mirror((0,1),(2,2))", "scale_width=false; scale(2.5,(1,0))", "scale_width=true; scale(0.5,(1,0))", "transform(2,true,0.3,(1,1))"}; return n[v]; }
     static Repetition& rep(T& e) { return e.repetition; }
     static std::string interp(const Interpolation& i) {
         switch (i.type) {
@@ -506,7 +526,7 @@ struct RobustOps {
 struct LabelOps {
     typedef Label T;
     static const char* name() { return "label"; }
-    static T* build() {
+    static T* build(int variant = 0) {
         T* e = (T*)allocate_clear(sizeof(T));
         e->init("lbl");
         e->tag = make_tag(4, 1);
@@ -516,8 +536,11 @@ struct LabelOps {
         e->magnification = 2;
         e->x_reflection = true;
         e->properties = make_props();
+        if (variant == 1) e->transform(2, true, 0.3, Vec2{1, 1});
         return e;
     }
+    static int nvariants() { return 2; }
+    static const char* variant_name(int v) { return v ? "transform(2,true,0.3,(1,1))" : "fresh"; }
     static Repetition& rep(T& e) { return e.repetition; }
     static std::string dumps(const T& e) { return dump::label(e); }
     static void shift(T& e, Vec2 v) { e.origin.x += v.x; e.origin.y += v.y; }
@@ -530,7 +553,7 @@ template <bool BY_NAME>
 struct RefOps {
     typedef Reference T;
     static const char* name() { return BY_NAME ? "reference_by_name" : "reference"; }
-    static T* build() {
+    static T* build(int variant = 0) {
         T* e = (T*)allocate_clear(sizeof(T));
         if (BY_NAME) e->init("ghost"); else e->init(&CHILD);
         e->origin = Vec2{1, 1};
@@ -538,8 +561,11 @@ struct RefOps {
         e->magnification = 1.5;
         e->x_reflection = true;
         e->properties = make_props();
+        if (variant == 1) e->transform(2, true, 0.3, Vec2{1, 1});
         return e;
     }
+    static int nvariants() { return 2; }
+    static const char* variant_name(int v) { return v ? "transform(2,true,0.3,(1,1))" : "fresh"; }
     static Repetition& rep(T& e) { return e.repetition; }
     static std::string dumps(const T& e) { return dump::reference(e); }
     static void shift(T& e, Vec2 v) { e.origin.x += v.x; e.origin.y += v.y; }
@@ -589,7 +615,7 @@ static std::string isolated(const std::function<void()>& f, std::string& err) {
 }
 
 template <class Ops>
-static void apply_body(int ri, int prefill) {
+static void apply_body(int ri, int prefill, int variant) {
     typedef typename Ops::T T;
     const RepSpec& s = ALPHA[ri];
     SpecInfo inf = info_of(s);
@@ -597,11 +623,12 @@ static void apply_body(int ri, int prefill) {
     JFields tags = base_tags(s, inf);
     tags.push_back({"element", jstr(Ops::name())});
     tags.push_back({"prefilled", jbool(prefill)});
-    std::string rp = fmt("sub=apply rep=%d el=%s prefill=%d", ri, Ops::name(), prefill);
-    T* e0 = Ops::build();  // pristine twin without repetition
-    T* e = Ops::build();
+    tags.push_back({"history", jstr(Ops::variant_name(variant))});
+    std::string rp = fmt("sub=apply rep=%d el=%s prefill=%d var=%d", ri, Ops::name(), prefill, variant);
+    T* e0 = Ops::build(variant);  // pristine twin (same construction and transform history) without repetition
+    T* e = Ops::build(variant);
     make_rep(s, Ops::rep(*e));
-    std::string cs = jobj({{"element", jstr(Ops::name())}, {"repetition", spec_json(s)}, {"denoted_set", vecs_json(own)}, {"result_array_prefilled_with_the_element_itself", jbool(prefill)}, {"original", Ops::dumps(*e)}});
+    std::string cs = jobj({{"element", jstr(Ops::name())}, {"history_before_apply", jstr(Ops::variant_name(variant))}, {"repetition", spec_json(s)}, {"denoted_set", vecs_json(own)}, {"result_array_prefilled_with_the_element_itself", jbool(prefill)}, {"original", Ops::dumps(*e)}});
     auto fail = [&](const std::string& cls, const std::string& detail) { R->violation("apply", cls, tags, cs, detail, rp); };
     Array<T*> result = {};
     if (prefill) result.append(e);
@@ -610,16 +637,19 @@ static void apply_body(int ri, int prefill) {
     std::vector<std::string> want;
     std::map<std::string, Vec2> vec_of;
     for (size_t k = 1; k < own.size(); k++) {
-        Ops::shift(*e0, own[k]);
-        std::string d = Ops::dumps(*e0);
-        Ops::shift(*e0, Vec2{-own[k].x, -own[k].y});
+        // a fresh twin per vector, translated by the harness's own "coordinate += component" loops (after a
+        // rotation the coordinates are no longer dyadic, so shifting one twin back and forth would not be exact)
+        T* t = Ops::build(variant);
+        Ops::shift(*t, own[k]);
+        std::string d = Ops::dumps(*t);
+        Ops::destroy(t);
         want.push_back(d);
         vec_of[d] = own[k];
     }
-    if (Ops::dumps(*e0) != dump0) R->internal_error("harness shift/unshift is not exact for " + spec_json(s));
     e->apply_repetition(result);
     R->count("cases");
     R->count(std::string("apply_cases_") + Ops::name());
+    if (variant) R->count("apply_cases_with_transform_history");
     if (inf.card != 1) R->count("nontrivial");
     if (inf.zero_count) R->count("apply_cases_zero_count");
     uint64_t expect_new = own.size() > 0 ? own.size() - 1 : 0;
@@ -668,6 +698,10 @@ static void apply_body(int ri, int prefill) {
             if (Ops::geometry(*e0, base)) {
                 R->count("apply_geometry_checks");
                 for (size_t i = 0; i < copies.size() && ok; i++) {
+                    // quick tier: outline of the first, middle and last copy only (the deep dump, of which the
+                    // outline is a deterministic function, is compared for every copy); thorough: every copy
+                    if (!R->thorough() && !R->replaying() && i != 0 && i != copies.size() / 2 && i + 1 != copies.size()) continue;
+                    R->count("apply_copy_outlines_compared");
                     Vec2 v = vec_of[got[i]];
                     std::vector<GeoPoly> g;
                     Ops::geometry(*copies[i], g);
@@ -692,10 +726,15 @@ static void apply_body(int ri, int prefill) {
     Ops::destroy(e0);
 }
 
-struct ApplyFn { const char* name; void (*body)(int, int); };
-static const ApplyFn APPLY[6] = {{PolyOps::name(), apply_body<PolyOps>}, {FlexOps::name(), apply_body<FlexOps>}, {RobustOps::name(), apply_body<RobustOps>},
-                                 {LabelOps::name(), apply_body<LabelOps>}, {RefOps<false>::name(), apply_body<RefOps<false>>}, {RefOps<true>::name(), apply_body<RefOps<true>>}};
-static void report_crash(int ri, const char* el, int prefill, const std::string& what, const std::string& err, bool emit = true) {
+struct ApplyFn { const char* name; int variant; const char* history; void (*body)(int, int, int); };
+static std::vector<ApplyFn> APPLY;
+template <class Ops>
+static void add_apply() { for (int v = 0; v < Ops::nvariants(); v++) APPLY.push_back({Ops::name(), v, Ops::variant_name(v), apply_body<Ops>}); }
+static void build_apply_table() {
+    add_apply<PolyOps>(); add_apply<FlexOps>(); add_apply<RobustOps>(); add_apply<LabelOps>(); add_apply<RefOps<false>>(); add_apply<RefOps<true>>();
+}
+static void report_crash(int ri, int k, int prefill, const std::string& what, const std::string& err, bool emit = true) {
+    const char* el = APPLY[k].name;
     const RepSpec& s = ALPHA[ri];
     SpecInfo inf = info_of(s);
     R->count("cases");
@@ -705,13 +744,14 @@ static void report_crash(int ri, const char* el, int prefill, const std::string&
     JFields tags = base_tags(s, inf);
     tags.push_back({"element", jstr(el)});
     tags.push_back({"prefilled", jbool(prefill)});
+    tags.push_back({"history", jstr(APPLY[k].history)});
     if (!emit) {  // same tag values already reported from this worker: count only
         R->count("violations_total");
         R->count(std::string("viol:apply/crash-") + el);
         return;
     }
-    R->violation("apply", std::string("crash-") + el, tags, jobj({{"element", jstr(el)}, {"repetition", spec_json(s)}, {"denoted_set", jstr("empty (zero count)")}, {"result_array_prefilled_with_the_element_itself", jbool(prefill)}}),
-                 std::string(el) + "::apply_repetition did not return: " + what + (err.empty() ? "" : "\n" + err), fmt("sub=apply rep=%d el=%s prefill=%d", ri, el, prefill));
+    R->violation("apply", std::string("crash-") + el, tags, jobj({{"element", jstr(el)}, {"history_before_apply", jstr(APPLY[k].history)}, {"repetition", spec_json(s)}, {"denoted_set", jstr("empty (zero count)")}, {"result_array_prefilled_with_the_element_itself", jbool(prefill)}}),
+                 std::string(el) + "::apply_repetition did not return: " + what + (err.empty() ? "" : "\n" + err), fmt("sub=apply rep=%d el=%s prefill=%d var=%d", ri, el, prefill, APPLY[k].variant));
 }
 // Zero-count lattices are suspected to crash (DESIGN.md 0.1 D15).  So that every (element, repetition,
 // prefill) case is attributed exactly, they never run in the worker itself:
@@ -734,25 +774,27 @@ static void grouped_child(int ri, const std::vector<std::pair<int, int>>& cases,
         JB_ARMED = 1;
         int sig = sigsetjmp(JB, 1);
         if (sig == 0) {
-            APPLY[cases[i].first].body(ri, cases[i].second);
+            APPLY[cases[i].first].body(ri, cases[i].second, APPLY[cases[i].first].variant);
             JB_ARMED = 0;
         } else {
             JB_ARMED = 0;
             any = true;
-            report_crash(ri, APPLY[cases[i].first].name, cases[i].second,
+            report_crash(ri, cases[i].first, cases[i].second,
                          fmt("invalid memory access (signal %d) inside apply_repetition (caught and left by siglongjmp so that the remaining cases still run; replay this case for the sanitizer report)", sig), "", emit_ok[i]);
         }
     }
     if (any) { R->flush_counters(); fflush(NULL); _exit(3); }
 }
-static void apply_all(int ri, const std::string& only_el, int only_prefill) {
+// result array pre-filled with the element itself: fresh elements only (the transform history does not
+// interact with the result array)
+static void apply_all(int ri, const std::string& only_el, int only_prefill, int only_var = -1) {
     SpecInfo inf = info_of(ALPHA[ri]);
     std::vector<std::pair<int, int>> cases, grouped;
     for (int prefill = 0; prefill < 2; prefill++)
-        for (int k = 0; k < 6; k++)
-            if ((only_prefill < 0 || prefill == only_prefill) && (only_el.empty() || only_el == APPLY[k].name)) cases.push_back({k, prefill});
+        for (int k = 0; k < (int)APPLY.size(); k++)
+            if ((only_prefill < 0 || prefill == only_prefill) && (only_el.empty() || only_el == APPLY[k].name) && (only_var < 0 || only_var == APPLY[k].variant) && !(prefill && APPLY[k].variant)) cases.push_back({k, prefill});
     if (!inf.zero_count) {
-        for (auto& c : cases) APPLY[c.first].body(ri, c.second);
+        for (auto& c : cases) APPLY[c.first].body(ri, c.second, APPLY[c.first].variant);
         return;
     }
     // per worker process: element kinds whose first zero-count case has run alone under the sanitizer's
@@ -762,8 +804,8 @@ static void apply_all(int ri, const std::string& only_el, int only_prefill) {
         if (!R->replaying() && slow_done.count(APPLY[c.first].name)) { grouped.push_back(c); continue; }
         slow_done.insert(APPLY[c.first].name);
         std::string err;
-        std::string what = isolated([&] { APPLY[c.first].body(ri, c.second); }, err);
-        if (!what.empty()) report_crash(ri, APPLY[c.first].name, c.second, what, err);
+        std::string what = isolated([&] { APPLY[c.first].body(ri, c.second, APPLY[c.first].variant); }, err);
+        if (!what.empty()) report_crash(ri, c.first, c.second, what, err);
     }
     if (grouped.empty()) return;
     std::vector<char> emit_ok;
@@ -817,6 +859,7 @@ int main(int argc, char** argv) {
     CHILD.name = copy_string("child", NULL);
     bool T = run.thorough();
     build_alphabet(T);
+    build_apply_table();
     if (run.replaying()) {
         VERBOSE = true;
         std::string sub = run.rarg("sub");
@@ -824,7 +867,7 @@ int main(int argc, char** argv) {
         if (ri < 0 || ri >= (int)ALPHA.size()) { run.internal_error("replay: repetition index out of range for this tier"); return run.finish(); }
         if (sub == "set") check_set(ri);
         else if (sub == "transform") check_transform(ri, run.rarg("t").empty() ? -1 : atoi(run.rarg("t").c_str()));
-        else if (sub == "apply") apply_all(ri, run.rarg("el"), run.rarg("prefill").empty() ? -1 : atoi(run.rarg("prefill").c_str()));
+        else if (sub == "apply") apply_all(ri, run.rarg("el"), run.rarg("prefill").empty() ? -1 : atoi(run.rarg("prefill").c_str()), run.rarg("var").empty() ? -1 : atoi(run.rarg("var").c_str()));
         else { check_set(ri); check_transform(ri, -1); apply_all(ri, "", -1); }
         return run.finish();
     }
@@ -844,10 +887,10 @@ int main(int argc, char** argv) {
     };
     bool ok = parallel_for(run, n, body, [&](int64_t i) { return jobj({{"repetition", spec_json(ALPHA[i])}}); }, [&](int64_t i) { return fmt("sub=all rep=%lld", (long long)i); }, PFOptions{120, "enum", true});
     run.sample("set", jobj({{"repetition", spec_json(ALPHA[ALPHA.size() / 7])}, {"denoted_set", vecs_json(own_set(ALPHA[ALPHA.size() / 7]))}}));
-    run.sample("apply", jobj({{"repetition", spec_json(ALPHA[ALPHA.size() / 2])}, {"elements", jstr("polygon, flexpath, robustpath, label, reference, reference_by_name x result array empty / holding the element")}}));
+    run.sample("apply", jobj({{"repetition", spec_json(ALPHA[ALPHA.size() / 2])}, {"elements", jstr("polygon, flexpath, robustpath, label, reference, reference_by_name x {fresh, after each transform history} ; fresh ones x result array empty / holding the element")}}));
     run.sample("transform", jobj({{"repetition", spec_json(ALPHA[ALPHA.size() / 3])}, {"transforms", jstr("m in {1,2,-1} x refl in {F,T} x rot in {0,pi/2,0.6}")}}));
     note_bezier_ctrl_sharing();
-    run.bound("enum", "every repetition of the alphabet {" + alphabet_desc(T) + "} x {get_count, get_offsets, get_extrema (result empty / pre-filled)} x 18 transforms x apply_repetition on 6 element kinds x {result array empty, holding the element}", ok,
-              n * (1 + 18 + 12));
+    run.bound("enum", "every repetition of the alphabet {" + alphabet_desc(T) + "} x {get_count, get_offsets, get_extrema (result empty / pre-filled)} x 18 transforms x apply_repetition on 6 element kinds, each fresh and after every transform history of its list (18 element states: polygon rotate / mirror; flexpath mirror / scale 2.5 with scale_width=false / transform(2,refl,0.3,(1,1)); robustpath the same plus scale 0.5 with scale_width=true; label, reference, reference_by_name transform with reflection), fresh elements also with the result array already holding the element", ok,
+              n * (1 + 18 + (int64_t)APPLY.size() + 6));
     return run.finish();
 }
